@@ -101,7 +101,7 @@ class BaseFiles(Generic[Interface]):
             if not if_modified_since:
                 raise ValueError("Empty date value")
             modified_time = parsedate_to_datetime(if_modified_since).timestamp()
-        except ValueError:
+        except (TypeError, ValueError, OverflowError, OSError):
             return False
 
         return int(last_modified) <= int(modified_time)
